@@ -122,7 +122,7 @@ class ConsequentMonitor:
                 if act.implication is not implication:
                     ctx.violation("an added activation does not carry the block's implication operator", dict(case, variable=n, position=k), str(implication), str(act.implication))
                     return
-                if not W.same(act.degree, d):
+                if not W.agree(ctx, act.degree, d, "activated degree"):
                     # name the mechanism: hedges of earlier conclusions, or hedge order
                     mech = "an added activation's degree is not the rule degree modified by its own hedges"
                     listed = fl.scalar(deg)
